@@ -129,6 +129,13 @@ func init() {
 	//  t <ns> | sweep <ns>: only in real-sweep histories (thorough tier). The listener's own sweep goroutine runs once a minute and cannot
 	//  be called; the history's clock is mapped to real time at 1/40 (ConnectionTimeout 300 s -> 7.5 s, OldConnectionTimeout 1800 s -> 45 s,
 	//  a sweep at history time 2400k s is the real sweep at minute k). `t` sleeps until that time, `sweep` until 1.5 s after it.
+	opTimeout["c13t"] = 400 * time.Second
+	// c13t events...: the same over the TCP carrier's address type
+	register("c13t", func(a []Tok) []Tok {
+		addrTCP = true
+		defer func() { addrTCP = false }()
+		return ops["c13"](a)
+	})
 	register("c13", func(a []Tok) []Tok {
 		realTime := false
 		for _, t := range a {
